@@ -7,12 +7,244 @@
 (* result open (such runs are not compared), "stuck:type" for a call the   *)
 (* static rules exclude.  NanoSem.tla dispatches every name in LibBuiltins *)
 (* here; NanoTypeLib.tla gives the static signatures.                      *)
+(*                                                                         *)
+(* Sources: STDLIB.md (section names quoted at each group), ARRAY_SAFETY.md *)
+(* and DYNAMIC_ARRAYS.md ("I perform bounds checking on all array          *)
+(* operations at runtime").  A case the documents do not settle and on     *)
+(* which native, NanoVM and the evaluator agree is specified as they       *)
+(* behave and tagged INFERRED; where they disagree it is unspecified.      *)
+(* The higher-order functions filter / map / reduce call back into the     *)
+(* program and are therefore specified in NanoSem.tla (block "higher-order *)
+(* library functions").                                                    *)
 (***************************************************************************)
 EXTENDS Integers, Sequences, FiniteSets, TLC, Int64, NanoVal
 
 LR(v, store) == [ok |-> "ok", v |-> v, store |-> store]
 LF(why, store) == [ok |-> why, v |-> VVoid, store |-> store]
 
-LibBuiltins == {}
-LibApply(name, vs, store) == LF("stuck:builtin", store)
+\* ------------------------------------------------------------ characters
+\* "Character Classification (6)": a character is an int; the classes are ranges of ASCII codes, every other
+\* integer (negative, > 127, >= 2^32 ...) is in no class.
+LIn(l, lo, hi) == l[1] = 0 /\ l[2] = 0 /\ l[3] = 0 /\ l[4] >= lo /\ l[4] <= hi
+LDigit(l) == LIn(l, 48, 57)
+LUpper(l) == LIn(l, 65, 90)
+LLower(l) == LIn(l, 97, 122)
+LAlpha(l) == LUpper(l) \/ LLower(l)
+LAlnum(l) == LAlpha(l) \/ LDigit(l)
+LSpace(l) == LIn(l, 32, 32) \/ LIn(l, 9, 10) \/ LIn(l, 13, 13)       \* space, tab, newline, carriage return
+CharClass(name, l) ==
+   CASE name = "is_digit" -> LDigit(l) [] name = "is_alpha" -> LAlpha(l) [] name = "is_alnum" -> LAlnum(l)
+     [] name = "is_whitespace" -> LSpace(l) [] name = "is_upper" -> LUpper(l) [] name = "is_lower" -> LLower(l)
+CharClassFns == {"is_digit", "is_alpha", "is_alnum", "is_whitespace", "is_upper", "is_lower"}
+\* "Type Conversions (5)"
+DigitValue(l) == IF LDigit(l) THEN <<0, 0, 0, l[4] - 48>> ELSE I64Neg(I64One)      \* -1 if it is not a digit
+ToLower(l) == IF LUpper(l) THEN <<0, 0, 0, l[4] + 32>> ELSE l                      \* non-letters unchanged
+ToUpper(l) == IF LLower(l) THEN <<0, 0, 0, l[4] - 32>> ELSE l
+
+\* ------------------------------------------------------ string -> integer
+\* string_to_int: "I parse a string to an integer.  I return 0 if the string cannot be parsed."  Documented: a decimal
+\* numeral with an optional '-' gives its value, a string with no numeral gives 0.  INFERRED (native, NanoVM and the
+\* evaluator all use strtoll): leading spaces and one '+' or '-' are skipped, the longest run of digits is read and the rest
+\* of the string is ignored, a magnitude that does not fit saturates at the 64-bit limits.
+\* (strings of this specification are printable ASCII: the only white space is the space character)
+RECURSIVE SkipSp(_, _)
+SkipSp(x, k) == IF k <= Len(x) /\ SubSeq(x, k, k) = " " THEN SkipSp(x, k + 1) ELSE k
+IsDig(x, k) == k <= Len(x) /\ CharCode(SubSeq(x, k, k)) >= 48 /\ CharCode(SubSeq(x, k, k)) <= 57
+RECURSIVE DigitsEnd(_, _)
+DigitsEnd(x, k) == IF IsDig(x, k) THEN DigitsEnd(x, k + 1) ELSE k
+TenthOfMin == <<3276, 52428, 52428, 52428>>          \* floor(2^63 / 10) = 922337203685477580
+\* magnitude of the digit run x[k .. e-1] as an unsigned 64-bit number, [v, over]: over = it exceeds 2^63
+RECURSIVE Magn(_, _, _, _, _)
+Magn(x, k, e, acc, over) ==
+   IF k >= e THEN [v |-> acc, over |-> over]
+   ELSE IF over \/ I64LtU(TenthOfMin, acc) THEN Magn(x, k + 1, e, acc, TRUE)
+   ELSE LET nx == I64AddU(I64Mul(acc, <<0, 0, 0, 10>>), <<0, 0, 0, CharCode(SubSeq(x, k, k)) - 48>>) IN
+        Magn(x, k + 1, e, nx, I64LtU(I64MinI, nx))
+\* [any: a numeral was found, all: nothing follows it, plain: no leading space / '+' was skipped, v: the value]
+Strtoll(x) ==
+   LET a == SkipSp(x, 1)
+       neg == a <= Len(x) /\ SubSeq(x, a, a) = "-"
+       pos == a <= Len(x) /\ SubSeq(x, a, a) = "+"
+       b == IF neg \/ pos THEN a + 1 ELSE a
+       e == DigitsEnd(x, b)
+       m == Magn(x, b, e, I64Zero, FALSE) IN
+   [any |-> e > b, all |-> e > Len(x), plain |-> a = 1 /\ ~pos,
+    v |-> IF e = b THEN I64Zero
+          ELSE IF neg THEN (IF m.over THEN I64MinI ELSE I64Neg(m.v))            \* magnitude 2^63 itself negates to MinI
+          ELSE IF m.over \/ m.v = I64MinI THEN I64MaxI ELSE m.v]
+
+\* -------------------------------------------------------------- indices
+\* an index into a sequence of length n: the position 1..n, or 0 when the 64-bit value is outside [0, n)
+Pos(ix, n) == IF I64IsNeg(ix) \/ ~I64IsSmall(ix) \/ I64ToInt(ix) >= n THEN 0 ELSE I64ToInt(ix) + 1
+RemoveAt(s, p) == SubSeq(s, 1, p - 1) \o SubSeq(s, p + 1, Len(s))
+InsertAt(s, p, x) == SubSeq(s, 1, p - 1) \o <<x>> \o SubSeq(s, p, Len(s))       \* x becomes element number p
+Rep(n, x) == [k \in 1..n |-> x]
+FirstOrder(v) == v.t \in {"int", "bool", "str"}
+
+\* ------------------------------------------------------------ dispatcher
+ListFns(p) == {p \o "_new", p \o "_with_capacity", p \o "_push", p \o "_pop", p \o "_get", p \o "_set", p \o "_insert",
+               p \o "_remove", p \o "_length", p \o "_capacity", p \o "_is_empty", p \o "_clear", p \o "_free"}
+LibBuiltins == CharClassFns \cup {"digit_value", "char_to_lower", "char_to_upper",
+                                  "cast_int", "cast_bool", "cast_string", "to_string",
+                                  "array_new", "array_slice", "array_remove_at"}
+               \cup ListFns("list_int") \cup ListFns("list_string")
+\* functions NanoSem.tla specifies itself on part of their domain and NanoLib specifies completely; LibApply accepts them
+\* (the case table of NanoLibTable.tla goes through LibApply), NanoSem's own arm takes precedence inside programs
+LibOverrides == {"string_to_int"}
+
+ListApply(p, et, name, vs, store) ==       \* "List Operations (Dynamic Lists)": List<int> (et = "int"), List<string> (et = "str")
+   LET n == Len(vs)
+       op == SubSeq(name, Len(p) + 2, Len(name))
+       isl == n >= 1 /\ vs[1].t = "list" /\ vs[1].s = et
+       cell == store[vs[1].r]
+       dead == cell = <<VFreed>> IN
+   IF op = "new" THEN
+        IF n # 0 THEN LF("stuck:arity", store) ELSE LR(VList(Len(store) + 1, et), Append(store, <<>>))
+   ELSE IF op = "with_capacity" THEN       \* an empty list; the capacity is a performance hint that no operation shows
+        IF n # 1 \/ vs[1].t # "int" THEN LF("stuck:type", store)
+        ELSE IF I64IsNeg(vs[1].i) \/ ~I64IsSmall(vs[1].i) THEN LF("unspecified:list-capacity", store)
+        ELSE LR(VList(Len(store) + 1, et), Append(store, <<>>))
+   ELSE IF ~isl THEN LF("stuck:type", store)
+   ELSE IF dead THEN LF("unspecified:list-use-after-free", store)        \* "I will not allow you to use the list after it is freed"
+   ELSE IF op = "push" THEN
+        IF n # 2 \/ vs[2].t # et THEN LF("stuck:type", store) ELSE LR(VVoid, [store EXCEPT ![vs[1].r] = Append(@, vs[2])])
+   ELSE IF op = "pop" THEN
+        \* STDLIB: "or 0 if the list is empty"; native, NanoVM (where present) and the evaluator all stop with an error, as
+        \* ARRAY_SAFETY demands for arrays (fail fast): INFERRED fault, see notes/LIB.md "documents against all engines"
+        IF n # 1 THEN LF("stuck:arity", store)
+        ELSE IF Len(cell) = 0 THEN LF("fault:bounds", store)
+        ELSE LR(cell[Len(cell)], [store EXCEPT ![vs[1].r] = SubSeq(cell, 1, Len(cell) - 1)])
+   ELSE IF op = "get" THEN                 \* STDLIB: "or 0 if it is out of bounds": as for pop, every engine stops (INFERRED fault)
+        IF n # 2 \/ vs[2].t # "int" THEN LF("stuck:type", store)
+        ELSE IF Pos(vs[2].i, Len(cell)) = 0 THEN LF("fault:bounds", store) ELSE LR(cell[Pos(vs[2].i, Len(cell))], store)
+   ELSE IF op = "set" THEN                 \* "I require the index to be valid"
+        IF n # 3 \/ vs[2].t # "int" \/ vs[3].t # et THEN LF("stuck:type", store)
+        ELSE IF Pos(vs[2].i, Len(cell)) = 0 THEN LF("fault:bounds", store)
+        ELSE LR(VVoid, [store EXCEPT ![vs[1].r][Pos(vs[2].i, Len(cell))] = vs[3]])
+   ELSE IF op = "insert" THEN              \* "insert a value at the index and shift elements to the right"; index = length appends (INFERRED)
+        IF n # 3 \/ vs[2].t # "int" \/ vs[3].t # et THEN LF("stuck:type", store)
+        ELSE IF Pos(vs[2].i, Len(cell) + 1) = 0 THEN LF("fault:bounds", store)
+        ELSE LR(VVoid, [store EXCEPT ![vs[1].r] = InsertAt(cell, Pos(vs[2].i, Len(cell) + 1), vs[3])])
+   ELSE IF op = "remove" THEN              \* "remove the element at the index and shift elements to the left" (-> void)
+        IF n # 2 \/ vs[2].t # "int" THEN LF("stuck:type", store)
+        ELSE IF Pos(vs[2].i, Len(cell)) = 0 THEN LF("fault:bounds", store)
+        ELSE LR(VVoid, [store EXCEPT ![vs[1].r] = RemoveAt(cell, Pos(vs[2].i, Len(cell)))])
+   ELSE IF op = "length" THEN
+        IF n # 1 THEN LF("stuck:arity", store) ELSE LR(VInt(I64FromNat(Len(cell))), store)
+   ELSE IF op = "is_empty" THEN
+        IF n # 1 THEN LF("stuck:arity", store) ELSE LR(VBool(Len(cell) = 0), store)
+   ELSE IF op = "capacity" THEN            \* "the allocated capacity": any number >= the length
+        IF n # 1 THEN LF("stuck:arity", store) ELSE LF("unspecified:list-capacity", store)
+   ELSE IF op = "clear" THEN
+        IF n # 1 THEN LF("stuck:arity", store) ELSE LR(VVoid, [store EXCEPT ![vs[1].r] = <<>>])
+   ELSE IF op = "free" THEN
+        IF n # 1 THEN LF("stuck:arity", store) ELSE LR(VVoid, [store EXCEPT ![vs[1].r] = <<VFreed>>])
+   ELSE LF("stuck:builtin", store)
+
+LibApply(name, vs, store) ==
+   LET n == Len(vs) IN
+   CASE name \in CharClassFns ->
+            IF n # 1 \/ vs[1].t # "int" THEN LF("stuck:type", store) ELSE LR(VBool(CharClass(name, vs[1].i)), store)
+     [] name = "digit_value" ->
+            IF n # 1 \/ vs[1].t # "int" THEN LF("stuck:type", store) ELSE LR(VInt(DigitValue(vs[1].i)), store)
+     [] name = "char_to_lower" ->
+            IF n # 1 \/ vs[1].t # "int" THEN LF("stuck:type", store) ELSE LR(VInt(ToLower(vs[1].i)), store)
+     [] name = "char_to_upper" ->
+            IF n # 1 \/ vs[1].t # "int" THEN LF("stuck:type", store) ELSE LR(VInt(ToUpper(vs[1].i)), store)
+     \* "Type Conversion (10)": cast_int "truncate floats and parse strings"; an int is unchanged, true is 1 and false 0 (INFERRED)
+     [] name = "cast_int" ->
+            IF n # 1 THEN LF("stuck:arity", store)
+            ELSE IF vs[1].t = "int" THEN LR(vs[1], store)
+            ELSE IF vs[1].t = "bool" THEN LR(VInt(vs[1].i), store)
+            ELSE IF vs[1].t = "str" THEN
+                 LET p == Strtoll(vs[1].s) IN
+                 IF p.any /\ p.all THEN LR(VInt(p.v), store)                      \* (cast_int "42") = 42
+                 ELSE IF ~p.any THEN LR(VInt(I64Zero), store)                     \* INFERRED: no numeral -> 0 (NanoVM, evaluator)
+                 ELSE LF("unspecified:cast_int-trailing-text", store)             \* "12abc": 12 on the NanoVM, 0 in the evaluator
+            ELSE IF vs[1].t = "float" THEN LF("unspecified:float", store)
+            ELSE LF("stuck:type", store)
+     \* cast_bool: "I evaluate 0, an empty string, or null as false; everything else becomes true."
+     [] name = "cast_bool" ->
+            IF n # 1 THEN LF("stuck:arity", store)
+            ELSE IF vs[1].t = "bool" THEN LR(vs[1], store)
+            ELSE IF vs[1].t = "int" THEN LR(VBool(vs[1].i # I64Zero), store)
+            ELSE IF vs[1].t = "str" THEN LR(VBool(vs[1].s # ""), store)
+            ELSE IF vs[1].t = "float" THEN LF("unspecified:float", store)
+            ELSE LF("stuck:type", store)
+     \* cast_string: (cast_string 42) = "42", (cast_string true) = "true"; a string is unchanged (INFERRED).
+     \* to_string is not in STDLIB.md; all engines treat it as cast_string (INFERRED)
+     [] name \in {"cast_string", "to_string"} ->
+            IF n # 1 THEN LF("stuck:arity", store)
+            ELSE IF vs[1].t = "int" THEN LR(VStr(Dec(vs[1].i)), store)
+            ELSE IF vs[1].t = "bool" THEN LR(VStr(IF IsTrue(vs[1]) THEN "true" ELSE "false"), store)
+            ELSE IF vs[1].t = "str" THEN LR(vs[1], store)
+            ELSE IF vs[1].t = "float" THEN LF("unspecified:float", store)
+            ELSE LF("unspecified:print-composite", store)
+     [] name = "string_to_int" ->
+            IF n # 1 \/ vs[1].t # "str" THEN LF("stuck:type", store) ELSE LR(VInt(Strtoll(vs[1].s).v), store)
+     \* "Array Operations": array_new(size, default) "filled with the default value ... The size must be non-negative.
+     \* I will cause an error if you provide a negative size."
+     [] name = "array_new" ->
+            IF n # 2 \/ vs[1].t # "int" THEN LF("stuck:type", store)
+            ELSE IF I64IsNeg(vs[1].i) THEN LF("fault:array_new-negative-size", store)
+            ELSE IF ~I64IsSmall(vs[1].i) \/ I64ToInt(vs[1].i) > 65536 THEN LF("unspecified:resource-limit", store)
+            ELSE IF ~FirstOrder(vs[2]) THEN LF("unspecified:array_new-composite-default", store)
+            ELSE LR(VArr(Len(store) + 1), Append(store, Rep(I64ToInt(vs[1].i), vs[2])))
+     \* "Array Advanced Operations": array_slice(arr, start, length) "a sub-array from a portion of an array": a new array,
+     \* (array_slice [1,2,3,4,5] 1 3) = [2,3,4].  INFERRED (native and the evaluator; the rule STDLIB states for
+     \* str_substring): the portion is clamped to the array.  Negative start or length, and start + length > 2^63 - 1: not specified.
+     [] name = "array_slice" ->
+            IF n # 3 \/ vs[1].t # "arr" \/ vs[2].t # "int" \/ vs[3].t # "int" THEN LF("stuck:type", store)
+            ELSE IF I64IsNeg(vs[2].i) \/ I64IsNeg(vs[3].i) THEN LF("unspecified:array_slice-negative", store)
+            \* start + length beyond 2^63 - 1: 0 elements natively, a crash in the evaluator, the rest of the array on the NanoVM
+            ELSE IF I64IsNeg(I64Add(vs[2].i, vs[3].i)) THEN LF("unspecified:array_slice-overflow", store)
+            ELSE LET a == store[vs[1].r]
+                     L == Len(a)
+                     s0 == IF ~I64IsSmall(vs[2].i) \/ I64ToInt(vs[2].i) > L THEN L ELSE I64ToInt(vs[2].i)
+                     e0 == IF ~I64IsSmall(vs[3].i) \/ I64ToInt(vs[3].i) > L - s0 THEN L ELSE s0 + I64ToInt(vs[3].i) IN
+                 LR(VArr(Len(store) + 1), Append(store, SubSeq(a, s0 + 1, e0)))
+     \* array_remove_at(arr, index): "remove the element at the index and shift remaining elements"; in place, the array
+     \* itself is the result (DYNAMIC_ARRAYS: `set arr (array_remove_at arr 0)`; STDLIB writes the call as a statement);
+     \* DYNAMIC_ARRAYS "Bounds Checking: I perform bounds checking on all array operations at runtime"
+     [] name = "array_remove_at" ->
+            IF n # 2 \/ vs[1].t # "arr" \/ vs[2].t # "int" THEN LF("stuck:type", store)
+            ELSE LET a == store[vs[1].r] p == Pos(vs[2].i, Len(store[vs[1].r])) IN
+                 IF p = 0 THEN LF("fault:bounds", store)
+                 ELSE LR(vs[1], [store EXCEPT ![vs[1].r] = RemoveAt(a, p)])
+     [] name \in ListFns("list_int") -> ListApply("list_int", "int", name, vs, store)
+     [] name \in ListFns("list_string") -> ListApply("list_string", "str", name, vs, store)
+     [] OTHER -> LF("stuck:builtin", store)
+
+\* ------------------------------------------------------------ deviations
+\* What one engine of the unchanged tree does where it leaves the specification above (known_findings.d/LIB.json).  Used only
+\* to attribute an observed mismatch to a *listed* finding: a run is excused by a switch only if it shows exactly the result
+\* below.  LibDev(sw, ...) = LibApply(...) wherever the switch does not apply.
+U32(l) == <<0, 0, l[3], l[4]>>                                               \* (uint32_t) of a 64-bit value
+S32(l) == IF l[3] >= 32768 THEN <<65535, 65535, l[3], l[4]>> ELSE <<0, 0, l[3], l[4]>>     \* (int) of a 64-bit value
+LibSwitches == {"VM_SLICE_START_END", "VM_REMOVE_AT_UNCHECKED", "INTERP_CHAR_ARG_32BIT", "LIST_INDEX_32BIT", "VM_CAST_BOOL_STRING_TRUE",
+                "INTERP_CAST_BOOL_STRING_LITERAL", "ARRAY_NEW_NEGATIVE_EMPTY"}
+LibDev(sw, name, vs, store) ==
+   LET n == Len(vs) IN
+   CASE sw = "VM_SLICE_START_END" /\ name = "array_slice" /\ n = 3 /\ vs[1].t = "arr" /\ vs[2].t = "int" /\ vs[3].t = "int" ->
+            \* vm.c OP_ARR_SLICE: (uint32_t) start, (uint32_t) end - the third argument is read as the end index
+            LET a == store[vs[1].r]
+                s0 == IF I64IsSmall(U32(vs[2].i)) /\ I64ToInt(U32(vs[2].i)) < Len(a) THEN I64ToInt(U32(vs[2].i)) ELSE Len(a)
+                e0 == IF I64IsSmall(U32(vs[3].i)) /\ I64ToInt(U32(vs[3].i)) < Len(a) THEN I64ToInt(U32(vs[3].i)) ELSE Len(a) IN
+            LR(VArr(Len(store) + 1), Append(store, IF s0 < e0 THEN SubSeq(a, s0 + 1, e0) ELSE <<>>))
+     [] sw = "VM_REMOVE_AT_UNCHECKED" /\ name = "array_remove_at" /\ n = 2 /\ vs[1].t = "arr" /\ vs[2].t = "int" ->
+            \* vm.c OP_ARR_REMOVE: (uint32_t) index, an index >= length is ignored
+            LET a == store[vs[1].r] p == Pos(U32(vs[2].i), Len(store[vs[1].r])) IN
+            IF p = 0 THEN LR(vs[1], store) ELSE LR(vs[1], [store EXCEPT ![vs[1].r] = RemoveAt(a, p)])
+     [] sw = "INTERP_CHAR_ARG_32BIT" /\ name \in CharClassFns \cup {"digit_value", "char_to_lower", "char_to_upper"} /\ n = 1 /\ vs[1].t = "int" ->
+            \* eval.c: `int c = (int)args[0].as.int_val;` and the result is computed from (and, for the mappings, is) c
+            LibApply(name, <<VInt(S32(vs[1].i))>>, store)
+     [] sw = "LIST_INDEX_32BIT" /\ name \in {"list_int_get", "list_int_set", "list_int_insert", "list_int_remove",
+                                              "list_string_get", "list_string_set", "list_string_insert", "list_string_remove"} /\ n >= 2 /\ vs[2].t = "int" ->
+            \* runtime/list_int.c, list_string.c: `int index` parameters
+            LibApply(name, [vs EXCEPT ![2] = VInt(S32(vs[2].i))], store)
+     [] sw = "VM_CAST_BOOL_STRING_TRUE" /\ name = "cast_bool" /\ n = 1 /\ vs[1].t = "str" -> LR(VBool(TRUE), store)
+     [] sw = "INTERP_CAST_BOOL_STRING_LITERAL" /\ name = "cast_bool" /\ n = 1 /\ vs[1].t = "str" -> LR(VBool(vs[1].s \in {"true", "1"}), store)
+     [] sw = "ARRAY_NEW_NEGATIVE_EMPTY" /\ name = "array_new" /\ n = 2 /\ vs[1].t = "int" /\ I64IsNeg(vs[1].i) /\ FirstOrder(vs[2]) ->
+            LR(VArr(Len(store) + 1), Append(store, <<>>))              \* native, NanoVM: an empty array (the evaluator: void, see LIB.json)
+     [] OTHER -> LibApply(name, vs, store)
 ====
